@@ -13,9 +13,9 @@ use vref::sec::Licence;
 /// one coordinate per dimension; 0 is the default
 pub type Assign = Vec<usize>;
 
-pub const DIM_NAMES: [&str; 21] = [
+pub const DIM_NAMES: [&str; 22] = [
     "use_nla", "restricted_admin", "blank_creds", "auto_logon", "use_hash", "client_name", "screen", "layout", "credentials", "select_ssl_although_nla", "user_id", "share_id", "version", "sc_core_optional", "block_order", "unknown_block", "channels", "licence",
-    "capabilities", "source_descriptor", "reactivations",
+    "capabilities", "source_descriptor", "reactivations", "reuse_share_id_on_reactivation",
 ];
 
 pub fn names() -> Vec<String> {
@@ -23,7 +23,7 @@ pub fn names() -> Vec<String> {
 }
 
 pub fn dim_sizes() -> Vec<usize> {
-    vec![2, 2, 2, 2, 2, names().len(), 4, 3, 3, 2, 6, 4, 5, 3, 6, 2, 3, 5, 4, 3, 3]
+    vec![2, 2, 2, 2, 2, names().len(), 4, 3, 3, 2, 6, 4, 5, 3, 6, 2, 3, 5, 4, 3, 3, 2]
 }
 
 pub fn build(a: &Assign) -> (ConnCfg, ServerParams) {
@@ -61,6 +61,7 @@ pub fn build(a: &Assign) -> (ConnCfg, ServerParams) {
     p.caps = [CapsKind::WindowsCapture, CapsKind::Minimal, CapsKind::WithUnknown, CapsKind::WithZeroLenBody][a[18]].clone();
     p.source_descriptor = [b"RDP\0".to_vec(), vec![], vec![0x41; 300]][a[19]].clone();
     p.reactivations = a[20];
+    p.reuse_share_id = a[21] == 1;
     (c, p)
 }
 
@@ -123,7 +124,7 @@ impl Prop for C03 {
         d
     }
     fn rule(&self) -> String {
-        format!("cases = (connector configuration, conforming-server parameters) over 21 dimensions ({} alternatives in total): NLA, restricted admin, blank credentials, auto logon, password|hash, 8 client names, 4 screen sizes, 3 layouts, 3 credential sets, SSL although NLA offered, 6 user ids (1001..65535), 4 share ids, 5 versions, optional SC_CORE fields, 6 block orders, unknown block, SC_NET padding, 5 licence variants, 4 capability lists (incl. the Windows capture, unknown and empty sets), 3 source-descriptor lengths, 0..2 reactivations. Enumerated: the default, every single alternative, every pair (every triple in thorough). Each case is a full real Connector::connect over real TLS + activation + 4 input events + shutdown; oracle: success, mandated message order, no message written while the reply it depends on is unread, identifiers echoed. Non-trivial: at least one non-default coordinate.", dim_sizes().iter().map(|s| s - 1).sum::<usize>())
+        format!("cases = (connector configuration, conforming-server parameters) over 22 dimensions ({} alternatives in total): NLA, restricted admin, blank credentials, auto logon, password|hash, 8 client names, 4 screen sizes, 3 layouts, 3 credential sets, SSL although NLA offered, 6 user ids (1001..65535), 4 share ids, 5 versions, optional SC_CORE fields, 6 block orders, unknown block, SC_NET padding, 5 licence variants, 4 capability lists (incl. the Windows capture, unknown and empty sets), 3 source-descriptor lengths, 0..2 reactivations, fresh or reused share id on reactivation. Enumerated: the default, every single alternative, every pair (every triple in thorough). Each case is a full real Connector::connect over real TLS + activation + 4 input events + shutdown; oracle: success, mandated message order, no message written while the reply it depends on is unread, identifiers echoed. Non-trivial: at least one non-default coordinate.", dim_sizes().iter().map(|s| s - 1).sum::<usize>())
     }
     fn assumptions(&self) -> Vec<String> {
         vec![
